@@ -35,6 +35,8 @@ pub enum WStep {
     WakeHeld,
     /// drop the clone held by the thread
     DropHeld,
+    /// wake the clone held by the thread by reference (it stays held)
+    WakeHeldByRef,
 }
 
 #[derive(Clone, Debug, PartialEq, Eq, Hash, Serialize, Deserialize, PartialOrd, Ord)]
@@ -46,11 +48,19 @@ pub struct FutSpec {
     /// completes, leaving a stale waker behind
     #[serde(default)]
     pub prior: bool,
+    /// the flag is written and read with `Relaxed`: what a waker thread did before its wake
+    /// reaches the re-poll only through the wake itself
+    #[serde(default)]
+    pub relaxed: bool,
+    /// the first poll hands a clone of its waker to every waker thread and spawns them (they
+    /// start with a held clone of the blocked task's waker)
+    #[serde(default)]
+    pub handoff: bool,
 }
 
 impl FutSpec {
     pub fn text(&self) -> String {
-        format!("poll={:?} via={} wakers={:?}{}", self.poll, if self.atomic_waker { "AtomicWaker" } else { "slot" }, self.wakers, if self.prior { " prior-registration" } else { "" })
+        format!("poll={:?} via={} wakers={:?}{}", self.poll, if self.atomic_waker { "AtomicWaker" } else { "slot" }, self.wakers, format!("{}{}{}", if self.prior { " prior-registration" } else { "" }, if self.relaxed { " relaxed-flag" } else { "" }, if self.handoff { " handoff" } else { "" }))
     }
 }
 
@@ -86,7 +96,7 @@ pub struct FutRef {
 }
 
 pub fn reference(spec: &FutSpec) -> FutRef {
-    let init = FS { flag: false, slot: if spec.prior { 1 } else { 0 }, notified: false, credit: true, main: MainSt::Polling(0), w: vec![0; spec.wakers.len()], held: vec![0; spec.wakers.len()] };
+    let init = FS { flag: false, slot: if spec.prior { 1 } else { 0 }, notified: false, credit: true, main: MainSt::Polling(0), w: vec![0; spec.wakers.len()], held: vec![if spec.handoff { 2 } else { 0 }; spec.wakers.len()] };
     let mut seen: HashSet<FS> = HashSet::new();
     let mut stack = vec![(init.clone(), vec![])];
     seen.insert(init);
@@ -163,6 +173,11 @@ pub fn reference(spec: &FutSpec) -> FutRef {
                     n.held[t] = 0;
                 }
                 WStep::DropHeld => n.held[t] = 0,
+                WStep::WakeHeldByRef => {
+                    if n.held[t] == 2 {
+                        n.notified = true;
+                    }
+                }
             }
             succ.push((n, false, format!("T{} {:?}", t + 1, st)));
         }
@@ -200,6 +215,16 @@ struct Shared {
     aw: loom::future::AtomicWaker,
     spec: FutSpec,
     polls: std::sync::atomic::AtomicUsize,
+    /// join handles of waker threads spawned by the first poll (handoff)
+    spawned: Mutex<Vec<loom::thread::JoinHandle<()>>>,
+}
+
+fn flag_orders(sh: &Shared) -> (std::sync::atomic::Ordering, std::sync::atomic::Ordering) {
+    if sh.spec.relaxed {
+        (std::sync::atomic::Ordering::Relaxed, std::sync::atomic::Ordering::Relaxed)
+    } else {
+        (Release, Acquire)
+    }
 }
 
 struct Fut(Arc<Shared>);
@@ -208,7 +233,14 @@ impl Future for Fut {
     type Output = u32;
     fn poll(self: Pin<&mut Self>, cx: &mut Context<'_>) -> Poll<u32> {
         let sh = &self.0;
-        sh.polls.fetch_add(1, std::sync::atomic::Ordering::SeqCst);
+        let first = sh.polls.fetch_add(1, std::sync::atomic::Ordering::SeqCst) == 0;
+        if first && sh.spec.handoff {
+            let mut hs = sh.spawned.lock().unwrap_or_else(|e| e.into_inner());
+            for script in &sh.spec.wakers {
+                let (s2, sc, w) = (sh.clone(), script.clone(), cx.waker().clone());
+                hs.push(loom::thread::spawn(move || waker_thread(s2, sc, Some(w))));
+            }
+        }
         for st in &sh.spec.poll {
             match st {
                 PStep::Register => {
@@ -220,7 +252,7 @@ impl Future for Fut {
                     }
                 }
                 PStep::Check => {
-                    if sh.flag.load(Acquire) {
+                    if sh.flag.load(flag_orders(sh).1) {
                         return Poll::Ready(7);
                     }
                 }
@@ -245,11 +277,10 @@ impl Future for RegisterOnce {
     }
 }
 
-fn waker_thread(sh: Arc<Shared>, script: Vec<WStep>) {
-    let mut held: Option<Waker> = None;
+fn waker_thread(sh: Arc<Shared>, script: Vec<WStep>, mut held: Option<Waker>) {
     for st in script {
         match st {
-            WStep::SetFlag => sh.flag.store(true, Release),
+            WStep::SetFlag => sh.flag.store(true, flag_orders(&sh).0),
             WStep::Wake => {
                 if sh.spec.atomic_waker {
                     sh.aw.wake();
@@ -294,6 +325,11 @@ fn waker_thread(sh: Arc<Shared>, script: Vec<WStep>) {
             WStep::DropHeld => {
                 held = None;
             }
+            WStep::WakeHeldByRef => {
+                if let Some(w) = held.as_ref() {
+                    w.wake_by_ref();
+                }
+            }
         }
     }
 }
@@ -327,6 +363,7 @@ pub fn run_subject(spec: &FutSpec, iter_cap: usize) -> FutObs {
                 aw: loom::future::AtomicWaker::new(),
                 spec: spec2.clone(),
                 polls: std::sync::atomic::AtomicUsize::new(0),
+                spawned: Mutex::new(vec![]),
             });
             if spec2.prior {
                 // an earlier task registers and completes at once
@@ -334,11 +371,14 @@ pub fn run_subject(spec: &FutSpec, iter_cap: usize) -> FutObs {
                 assert_eq!(out0, 0);
             }
             let mut hs = vec![];
-            for script in &spec2.wakers {
-                let (s2, sc) = (sh.clone(), script.clone());
-                hs.push(loom::thread::spawn(move || waker_thread(s2, sc)));
+            if !spec2.handoff {
+                for script in &spec2.wakers {
+                    let (s2, sc) = (sh.clone(), script.clone());
+                    hs.push(loom::thread::spawn(move || waker_thread(s2, sc, None)));
+                }
             }
             let out = loom::future::block_on(Fut(sh.clone()));
+            hs.extend(sh.spawned.lock().unwrap_or_else(|e| e.into_inner()).drain(..));
             for h in hs {
                 h.join().unwrap();
             }
@@ -378,7 +418,7 @@ pub fn eval(job: &Job) -> JobResult {
     res.loom_iterations = o.iterations;
     res.verdict = o.verdict.short();
     res.capped = o.verdict == Verdict::Capped;
-    let wake_steps: usize = spec.wakers.iter().flatten().filter(|s| matches!(s, WStep::Wake | WStep::WakeByRef | WStep::WakeHeld)).count();
+    let wake_steps: usize = spec.wakers.iter().flatten().filter(|s| matches!(s, WStep::Wake | WStep::WakeByRef | WStep::WakeHeld | WStep::WakeHeldByRef)).count();
     let registers = spec.poll.iter().filter(|s| **s == PStep::Register).count();
     res.sample = json!({"spec": spec.text(), "reference_deadlock": r.deadlock, "reference_witness": r.witness, "loom_verdict": res.verdict, "loom_iterations": o.iterations, "max_polls": o.max_polls});
     if res.capped {
@@ -459,7 +499,7 @@ pub fn specs(tier: &str) -> Vec<FutSpec> {
             let usable = |s: &Vec<WStep>| !aw || !s.contains(&CloneWaker);
             for s1 in scripts.iter().filter(|s| usable(s)) {
                 for prior in [false, true] {
-                    out.push(FutSpec { poll: p.clone(), atomic_waker: aw, wakers: vec![s1.clone()], prior });
+                    out.push(FutSpec { poll: p.clone(), atomic_waker: aw, wakers: vec![s1.clone()], prior, relaxed: false, handoff: false });
                 }
             }
             // two waker threads: short scripts
@@ -469,7 +509,46 @@ pub fn specs(tier: &str) -> Vec<FutSpec> {
                         continue;
                     }
                     if s1.len() + s2.len() <= if tier == "quick" { 2 } else { 4 } {
-                        out.push(FutSpec { poll: p.clone(), atomic_waker: aw, wakers: vec![s1.clone(), s2.clone()], prior: false });
+                        out.push(FutSpec { poll: p.clone(), atomic_waker: aw, wakers: vec![s1.clone(), s2.clone()], prior: false, relaxed: false, handoff: false });
+                    }
+                }
+            }
+        }
+    }
+    // handoff: the waker threads start with a clone of the blocked task's waker (no registration
+    // needed), the flag is Release/Acquire or Relaxed
+    let halpha = [SetFlag, WakeHeldByRef, WakeHeld, DropHeld];
+    let hmax = if tier == "quick" { 3 } else { 4 };
+    let mut hscripts: Vec<Vec<WStep>> = vec![];
+    let mut cur: Vec<Vec<WStep>> = vec![vec![]];
+    for _ in 0..hmax {
+        let mut nxt = vec![];
+        for s in &cur {
+            let held = s.iter().fold(true, |h, st| match st {
+                WakeHeld | DropHeld => false,
+                _ => h,
+            });
+            for a in halpha {
+                if matches!(a, WakeHeld | DropHeld | WakeHeldByRef) && !held {
+                    continue;
+                }
+                let mut s2 = s.clone();
+                s2.push(a);
+                nxt.push(s2);
+            }
+        }
+        hscripts.extend(nxt.iter().cloned());
+        cur = nxt;
+    }
+    for p in [vec![Check], vec![Register, Check], vec![Check, Register, Check]] {
+        for relaxed in [false, true] {
+            for s1 in &hscripts {
+                out.push(FutSpec { poll: p.clone(), atomic_waker: false, wakers: vec![s1.clone()], prior: false, relaxed, handoff: true });
+            }
+            for (i, s1) in hscripts.iter().enumerate() {
+                for s2 in hscripts.iter().skip(i) {
+                    if s1.len() + s2.len() <= if tier == "quick" { 3 } else { 5 } && s1.len().max(s2.len()) <= 3 {
+                        out.push(FutSpec { poll: p.clone(), atomic_waker: false, wakers: vec![s1.clone(), s2.clone()], prior: false, relaxed, handoff: true });
                     }
                 }
             }
